@@ -418,10 +418,11 @@ class Shelxfile():
             line = line.upper().split('!')[0]  # Ignore comments with "!", see how this performes
             word = line[:4]
             # get RESI:
-            if line.startswith(('END', 'HKLF')) and self.resi:
-                self.resi.num = 0
-                if self.debug or self.verbose:
+            if line.startswith(('END', 'HKLF')):
+                if self.resi and (self.debug or self.verbose):
                     print('RESI in line {} was not closed'.format(line_num + 1))
+                # The residue ends here. A new object, because the atoms above keep a reference to the old one:
+                self.resi = RESI(self, ['RESI', '0'])
                 # Do not continue here, otherwise HKLF is not parsed
                 # continue
             if word == 'RESI':
